@@ -131,6 +131,16 @@ def run(ctx):
     # notify has exactly the loops as callers
     callers = sorted({f["def"] for f, _bi, _t in graph.all_calls(fx, nfa.callee_is("context::StopNotifier::notify"))})
     loop_defs = sorted(f["def"] for f, _ in loops.find_loops(fx))
+    # helpers extracted from the loops are fine as long as only the loops (or such helpers) call them
+    helpers = set()
+    for c in callers:
+        if c in loop_defs:
+            continue
+        root = fx.fn(c).get("root", c) if fx.fn(c) else c
+        who = graph.callers_of(fx, root)
+        if who and all(w in loop_defs or w in callers for w in who):
+            helpers.add(c)
+    callers = [c for c in callers if c not in helpers]
     ctx.require(set(callers) <= set(loop_defs) and callers, "R04.3", "notify-callers", "StopNotifier::notify is called outside the event loops: %s" % [c for c in callers if c not in loop_defs], site=nf and nf["loc"], detail=callers)
     check_awaiters(ctx, fx)
     return core.finish(ctx)
